@@ -18,6 +18,7 @@ def main():
     ck.assumptions += sm2model.CONTRACTS
     eng = proto_engine(prog)
     fails = {}      # key -> list of (desc, model, info)
+    cexkeys = set()
     unknown = []
     npaths = 0
     cut = [0]
@@ -33,8 +34,11 @@ def main():
             res = []
 
             def claim(key, desc, c):
+                if key in cexkeys:
+                    return      # a counterexample for this claim is already in hand (kept for the replay): do not pay the failed-proof budget again on every further path
                 v = e.prove_i(c)
                 if v[0] == 'cex':
+                    cexkeys.add(key)
                     res.append((key, desc, v[1], info))
                 elif v[0] != 'proved':
                     unknown.append((key, desc, str(v[1])[:100]))
